@@ -39,6 +39,8 @@ PROGRAMS = {
     "long_sleep": ('T = []; T pushBack 1; sleep 100000; T pushBack 2;', True, False, False),
     "huge_sleep": ('T = []; T pushBack 1; sleep 1e10; T pushBack 2;', True, False, False),      # (a delay that overflows a 64 bit nanosecond time point)
     "nan_sleep_then_long": ('T = []; T pushBack 1; sleep (sqrt -1); sleep 99999; T pushBack 2;', True, False, False),
+    # an array nested one level deeper per iteration: when the limit cuts the run, emptying the VM has to take it apart
+    "nest_growth": ('T = []; N = 0; private _a = []; while {true} do { _a = [_a]; N = N + 1 };', True, False, False),
     "spawn_sleep": ('T = []; [] spawn {sleep 50000; T pushBack 9}; T pushBack 1;', False, False, False),
 }
 ENDLESS = [k for k, v in PROGRAMS.items() if not v[2]]
@@ -53,6 +55,10 @@ HUGE_LIMIT = 9300000000000      # ms; more nanoseconds than a 64 bit time point 
 
 @st.composite
 def _cases(draw):
+    if draw(st.integers(0, 24)) == 0:
+        # a clock that advances 1 us per read: the same limits allow 100 times as many instructions (deeply nested values get built)
+        runs = [dict(prog=draw(st.sampled_from(["nest_growth", "nest_growth", "short", "while_sched_body"])), advance_ms=draw(st.sampled_from([0, 5000]))) for _ in range(draw(st.integers(1, 3)))]
+        return dict(limit_ms=draw(st.sampled_from([300, 600])), cap=10000, runs=runs, clock_delta_us=1)
     limit = draw(st.sampled_from([0, 5, 20, 100, 500, 3000, 3000, HUGE_LIMIT]))
     cap = draw(st.sampled_from([1, 2, 7, 50, 300, 10000]))
     n = draw(st.integers(1, 5))
@@ -77,8 +83,10 @@ def strategy(env):
 def check(case, env):
     r = env.runner()
     limit, cap = case["limit_ms"], case["cap"]
-    r.new(vm=0, ops="full", virtual_clock=True, clock_delta_us=100, max_runtime_ms=limit, loop_cap=cap)
+    r.new(vm=0, ops="full", virtual_clock=True, clock_delta_us=case.get("clock_delta_us", 100), max_runtime_ms=limit, loop_cap=cap)
     labs = set()
+    if case.get("clock_delta_us"):
+        labs.add("fine_clock")
     v = None
     elapsed_before = 0
     for idx, run in enumerate(case["runs"]):
